@@ -8,6 +8,7 @@ from collections import Counter
 import sched_h as S
 import lv_universe as U
 from common import coq_failing, rng_for, CoqError
+from common import storage_of
 
 
 def _proj(**kw):
@@ -431,7 +432,7 @@ def run(prop, report, tier, seed, replay=None):
                 for backend in ('fork', 'spawn'):
                     for mw in (1, 2, 5):
                         runner = _Lab(storage=None, runner_backend=backend, max_workers=mw, notebook=False).runner_backend.build_runner(
-                            context={}, storage=_Lab(storage=None, notebook=False)._storage, max_workers=mw)
+                            context={}, storage=storage_of(_Lab(storage=None, notebook=False)), max_workers=mw)
                         try:
                             seen_mw = getattr(getattr(runner, "executor", None), "max_workers", None)
                             if seen_mw != mw:
